@@ -8,7 +8,7 @@ import re
 TRIVIAL_OUTPUTS = {"", "-", "u", "bad-op"}
 
 # streams whose generator emits cases that the Lean spec writer expands (driver op prefix)
-PREP = {"e2e.C01.roundtrip": "w."}
+PREP = {"e2e.C01.roundtrip": "w.", "e2e.C07.corrupt": "w."}
 
 TRUSTED_BASE = [
     "Lean 4.33.0 kernel (thorough tier: leanchecker re-check of the compiled property modules)",
@@ -43,6 +43,32 @@ KNOWN_CLASSES = {
 }
 
 PROPS = {
+    "C04": {
+        "lean_modules": ["TableauVerif.Props.C04", "TableauVerif.Props.C11"],
+        "oracles": ["c04.det", "c11.merge"],
+        "streams": [
+            ("e2e.C04.determinism", 32, 600, 8),
+            ("e2e.C11.merge", 200, 10000, 8),
+        ],
+        "assumptions": [
+            "abstraction: the Go scheduler, the map hash seed and directory/glob enumeration are 'some permutation / some interleaving'; the theorems quantify over all of them; the runtime itself is trusted to realise one",
+            "the inventory of map iterations and goroutine spawns is regenerated from the type-checked source on every run (C04_inventory / C04_spawns): a new site is unclassified until Props/C04 lists it",
+            "repeated real runs (fresh output dirs, GOMAXPROCS 1..16, map iteration re-randomised per run, merger completion orders forced through the yield hook) are compared file by file (sha256) for .proto, JSON, text and bin",
+            "firstMatch sites (RewriteSubdir, acronyms) are order-dependent only for ambiguous configurations (two rules matching the same path): outside the statement, recorded in DESIGN.md (D10)",
+        ],
+    },
+    "C11": {
+        "lean_modules": ["TableauVerif.Props.C11"],
+        "oracles": ["c11.merge"],
+        "streams": [
+            ("e2e.C11.merge", 400, 20000, 8),
+        ],
+        "assumptions": [
+            "the merge stream runs the REAL GenProto+GenConf on generated CSV books (rows partitioned over 1..4 books, glob merger) under EVERY completion order of the per-book goroutines, imposed through the verif yield hook in ParseMessage",
+            "modelled: xproto.Merge/CheckMapDuplicateKey, the reduce step of ParseMessage, importer order (sorted matches, primary last); the per-book parse is the table-parser model",
+            "partial: Scatter naming/export and explicit sheet specifiers (Book#Sheet) are not covered by this check yet",
+        ],
+    },
     "C01": {
         "lean_modules": ["TableauVerif.Props.C01"],
         "oracles": ["c01.rt"],
@@ -131,10 +157,12 @@ PROPS = {
     },
     "C07": {
         "lean_modules": ["TableauVerif.Props.C07"],
-        "oracles": ["c07.position", "c07.desc"],
+        "oracles": ["c07.position", "c07.desc", "c07.corrupt", "c07.skip", "tp.parse"],
         "streams": [
             ("corr.excel.position", 4000, 200000),
             ("corr.xerrors.newDesc", 6000, 300000),
+            ("e2e.C07.corrupt", 5000, 200000),
+            ("corr.confgen.tableParse", 6000, 200000),
         ],
         "assumptions": [
             "modelled: excel.LetterAxis/Postion, xerrors.ErrorKV/WrapKV/Error(), xerrors.NewDesc",
